@@ -1,0 +1,92 @@
+//go:build verif
+
+// Contracts for deductive verification (read as text by /verif/engine; this
+// file is never compiled into the package: it is comment-only and guarded
+// by the build tag verif).
+
+package resolve
+
+// ---------------------------------------------------------------------------
+// C13: the comparators graph canonicalisation relies on are total orders whose
+// zero is structural equality.
+
+//@ lemma PackageKey.Compare.order
+//@   vars a, b PackageKey
+//@   unfold PackageKey.Compare
+//@   ensures -1 <= a.Compare(b) && a.Compare(b) <= 1
+//@   ensures a.Compare(b) == -b.Compare(a)
+//@   ensures iff(a.Compare(b) == 0, a == b)
+//@   pattern a.Compare(b)
+//@   property C13
+//@   export
+
+//@ lemma PackageKey.Compare.trans
+//@   vars a, b, c PackageKey
+//@   unfold PackageKey.Compare
+//@   ensures imp(a.Compare(b) <= 0 && b.Compare(c) <= 0, a.Compare(c) <= 0)
+//@   pattern a.Compare(b); b.Compare(c)
+//@   property C13
+//@   export
+
+//@ opaque PackageKey.Compare
+
+//@ lemma VersionKey.Compare.order
+//@   vars a, b VersionKey
+//@   unfold VersionKey.Compare
+//@   ensures -1 <= a.Compare(b) && a.Compare(b) <= 1
+//@   ensures a.Compare(b) == -b.Compare(a)
+//@   ensures iff(a.Compare(b) == 0, a == b)
+//@   pattern a.Compare(b)
+//@   property C13
+//@   export
+
+//@ lemma VersionKey.Compare.trans
+//@   vars a, b, c VersionKey
+//@   unfold VersionKey.Compare
+//@   ensures imp(a.Compare(b) <= 0 && b.Compare(c) <= 0, a.Compare(c) <= 0)
+//@   pattern a.Compare(b); b.Compare(c)
+//@   property C13
+//@   export
+
+//@ opaque VersionKey.Compare
+
+//@ lemma NodeError.Compare.order
+//@   vars a, b NodeError
+//@   unfold NodeError.Compare
+//@   ensures -1 <= a.Compare(b) && a.Compare(b) <= 1
+//@   ensures a.Compare(b) == -b.Compare(a)
+//@   ensures iff(a.Compare(b) == 0, a == b)
+//@   pattern a.Compare(b)
+//@   property C13
+//@   export
+
+//@ lemma NodeError.Compare.trans
+//@   vars a, b, c NodeError
+//@   unfold NodeError.Compare
+//@   ensures imp(a.Compare(b) <= 0 && b.Compare(c) <= 0, a.Compare(c) <= 0)
+//@   pattern a.Compare(b); b.Compare(c)
+//@   property C13
+//@   export
+
+//@ opaque NodeError.Compare
+
+// Node.Compare: version, then number of errors, then the errors in order
+// (first-exit loop, summary derived).
+
+//@ pred sameErrors(a Node, b Node) = len(a.Errors) == len(b.Errors) &&
+//@      forall(i, 0, len(a.Errors), a.Errors[i] == b.Errors[i])
+
+//@ lemma Node.Compare.order
+//@   vars a, b Node
+//@   unfold Node.Compare
+//@   ensures -1 <= a.Compare(b) && a.Compare(b) <= 1
+//@   ensures a.Compare(b) == -b.Compare(a)
+//@   ensures imp(a.Compare(b) == 0, a.Version == b.Version && sameErrors(a, b))
+//@   ensures imp(a.Version == b.Version && sameErrors(a, b), a.Compare(b) == 0)
+//@   property C13
+
+//@ lemma Node.Compare.trans
+//@   vars a, b, c Node
+//@   unfold Node.Compare
+//@   ensures imp(a.Compare(b) <= 0 && b.Compare(c) <= 0, a.Compare(c) <= 0)
+//@   property C13
